@@ -2,7 +2,7 @@
 Theorems: lean/TypifyModel/Proofs/C07.lean (break_acyclic, break_no_cycle, break_minimal, break_box_on_cycle, break_only_box, break_total)
 Correspondence: slice c07 — the real `break_cycles` (hook `verif_break_cycles_on`, and `add_root_schema` with the
 pre/post IR snapshots) vs `Cycles.breakCycles`; compared: the exact set of boxed edges."""
-import json, itertools, subprocess
+import json, itertools, subprocess, os
 import vlib
 
 PROOF_TARGETS = ["TypifyModel.Proofs.C07"]
@@ -417,6 +417,19 @@ def check_graph_case(req, a_impl, a_model):
         return {"input": req, "impl": ci, "model": cm}, fails, False
     return None, fails, False
 
+def _graph_chunk(triples):
+    disagreements, impl_fail, unsupported, nontrivial, cyclic = [], [], 0, 0, 0
+    for req, a, b in triples:
+        d, fails, uns = check_graph_case(req, a, b)
+        if uns: unsupported += 1
+        if d: disagreements.append(d)
+        for f in fails: impl_fail.append((req, a, f))
+        orig = {int(k): v for k, v in req["graph"].items()}
+        reach = reachable(orig, range(req["lo"], req["hi"]))
+        if any(child_ids(orig[u]) for u in reach): nontrivial += 1
+        if find_cycle(orig, reach): cyclic += 1
+    return disagreements, impl_fail, unsupported, nontrivial, cyclic
+
 def run(ctx):
     findings = vlib.load_findings("C07")
     st = vlib.proof_stage(ctx, "C07", PROOF_TARGETS, PROOF_FILES, slices=["c07"])
@@ -443,15 +456,16 @@ def run(ctx):
     model = vlib.run_side("model", "c07", glines) if st["driver_ok"] else [None] * len(glines)
     disagreements, impl_fail, unsupported = [], [], 0
     nontrivial = cyclic = boxed_cases = 0
-    for req, a, b in zip(greqs, impl, model):
-        d, fails, uns = check_graph_case(req, a, b)
-        if uns: unsupported += 1
-        if d: disagreements.append(d)
-        for f in fails: impl_fail.append((req, a, f))
-        orig = {int(k): v for k, v in req["graph"].items()}
-        reach = reachable(orig, range(req["lo"], req["hi"]))
-        if any(child_ids(orig[u]) for u in reach): nontrivial += 1
-        if find_cycle(orig, reach): cyclic += 1
+    triples = list(zip(greqs, impl, model))
+    if len(triples) > 20000:
+        # the complete n = 3 enumeration: the per-graph oracle is pure; spread it over the cores
+        import multiprocessing as mp
+        chunks = [triples[i:i + 4000] for i in range(0, len(triples), 4000)]
+        with mp.get_context("fork").Pool(min(14, os.cpu_count() or 1)) as pool: parts = pool.map(_graph_chunk, chunks)
+    else:
+        parts = [_graph_chunk(triples)]
+    for ds, fs, uns, nt, cy in parts:
+        disagreements += ds; impl_fail += fs; unsupported += uns; nontrivial += nt; cyclic += cy
     # real schemas: pre/post snapshots of add_root_schema; the pre graph is also fed to both sides as a graph case
     slines = [json.dumps(r, sort_keys=True) for r in schemas]
     sans, hang = run_impl(ctx, slines, "impl_schema", budget)
